@@ -113,15 +113,31 @@ func (g *SymbolGraph) RemoveEdge(from, to graphs.SymbolKey, kind *SymbolEdgeKind
 		}
 	}
 
+	// Edges of another kind may still link from -> to; the dependency indices must then be kept
+	for _, remaining := range g.edges[fromBase] {
+		if remaining.Edge.To.BaseId() == toBase {
+			return
+		}
+	}
+
 	if depsMap, ok := g.deps[fromBase]; ok {
-		delete(depsMap, to)
+		// The indices hold full (versioned) keys whereas edges are keyed by base id - drop every version of 'to'
+		for depKey := range depsMap {
+			if depKey.BaseId() == toBase {
+				delete(depsMap, depKey)
+			}
+		}
 		if len(depsMap) == 0 {
 			delete(g.deps, fromBase)
 		}
 	}
 
 	if revMap, ok := g.revDeps[toBase]; ok {
-		delete(revMap, from)
+		for revKey := range revMap {
+			if revKey.BaseId() == fromBase {
+				delete(revMap, revKey)
+			}
+		}
 		if len(revMap) == 0 {
 			delete(g.revDeps, toBase)
 		}
